@@ -594,7 +594,11 @@ pub fn run_c14(ctx: &Ctx, st: &mut Local) {
                     Ok(vec![(id, seq[id])])
                 }
             } else {
-                child_digests(&path, &id.to_string(), &[], false)
+                // computed once per process (the first worker to get here), shared by all workers
+                static FRESH: std::sync::OnceLock<std::sync::Mutex<std::collections::HashMap<usize, Result<Vec<(usize, u64)>, String>>>> = std::sync::OnceLock::new();
+                let m = FRESH.get_or_init(|| std::sync::Mutex::new(std::collections::HashMap::new()));
+                let mut g = m.lock().unwrap_or_else(|e| e.into_inner());
+                g.entry(id).or_insert_with(|| child_digests(&path, &id.to_string(), &[], false)).clone()
             };
             match r {
                 Ok(v) => fresh[id] = v[0].1,
